@@ -364,3 +364,37 @@ pub fn c14_queries(s: &Shipped) -> (Vec<String>, Vec<usize>) {
     keep.dedup();
     (all, keep)
 }
+
+/// One-word prefixes (at most `max_len` letters) shared by words of facts from different asset files,
+/// as typed forms; at most `cap` of them, the shortest first.
+pub fn shared_prefixes(s: &Shipped, max_len: usize, cap: usize) -> Vec<String> {
+    let mut asset_of: Vec<usize> = Vec::new();
+    for (ai, (_, n)) in s.assets.iter().enumerate() {
+        asset_of.extend(std::iter::repeat(ai).take(*n));
+    }
+    let mut by_prefix: BTreeMap<String, BTreeSet<usize>> = BTreeMap::new();
+    for (ci, toks) in s.all_tokens().iter().enumerate() {
+        let a = asset_of.get(ci).copied().unwrap_or(0);
+        for t in toks {
+            let cs: Vec<char> = t.to_lowercase().chars().collect();
+            for l in 1..=cs.len().min(max_len) {
+                by_prefix.entry(cs[..l].iter().collect()).or_default().insert(a);
+            }
+        }
+    }
+    let mut out: Vec<String> = Vec::new();
+    for (p, assets) in by_prefix {
+        if assets.len() >= 2 {
+            if let Some(f) = typed_forms(&[p.as_str()]).into_iter().next() {
+                out.push(f);
+            }
+        }
+    }
+    out.sort_by_key(|p| (p.chars().count(), p.clone()));
+    // spread over the alphabet rather than the first `cap`
+    if out.len() > cap {
+        let step = out.len() as f64 / cap as f64;
+        out = (0..cap).map(|i| out[(i as f64 * step) as usize].clone()).collect();
+    }
+    out
+}
